@@ -44,6 +44,9 @@ func entryKey(e PubEntry) string {
 }
 
 // TestC17_Mgrx: subscribers against the datastore write log.
+// noopTransportOption is a transport option that configures nothing.
+func noopTransportOption(datatransfer.ChannelID, datatransfer.Transport) error { return nil }
+
 func TestC17_Mgrx(t *testing.T) {
 	sp := stats.For("C17")
 	sp.SetRule("mgrx: 2..4 channels (four roles) driven by generated callbacks / API calls / messages (including ignored ones); a witness subscriber registered first, 0..3 further global subscribers subscribed and unsubscribed at generated points, per-transfer subscribers (WithSubscriber) on created channels. Ground truth independent of the notification path: the datastore write log - every applied event is exactly one changed Put, ignored events none - decoded by an independent DAG-CBOR reader. Oracle: witness log length == Puts after creation per channel and the i-th snapshot equals the i-th Put; other subscribers see exactly the witness log restricted to their (fenced) subscription window, in order, without duplicates; a per-transfer subscriber sees only its own channel, from Open to the terminal event; no call after unsubscribe returned. Non-trivial: >=2 channels interleaved and >=1 subscription change mid-history; distinct by (action sequence hash, window pattern)")
@@ -63,10 +66,18 @@ func TestC17_Mgrx(t *testing.T) {
 				perTransfer[i] = sl
 				c = &mchan{role: role, other: gen.Peer(1 + i%2), voucher: v, base: simpleCid(10 + i), sel: strNode("sel")}
 				var err error
+				// the subscriber option in every position relative to (optional) transport options
+				opts := []datatransfer.TransferOption{datatransfer.WithSubscriber(sl.record)}
+				switch rapid.SampledFrom([]string{"none", "before", "after"}).Draw(t, "transportOptions") {
+				case "before":
+					opts = append([]datatransfer.TransferOption{datatransfer.WithTransportOptions(noopTransportOption)}, opts...)
+				case "after":
+					opts = append(opts, datatransfer.WithTransportOptions(noopTransportOption))
+				}
 				if role == "createPush" {
-					c.chid, err = r.mgr.OpenPushDataChannel(bg(), c.other, v, c.base, c.sel, datatransfer.WithSubscriber(sl.record))
+					c.chid, err = r.mgr.OpenPushDataChannel(bg(), c.other, v, c.base, c.sel, opts...)
 				} else {
-					c.chid, err = r.mgr.OpenPullDataChannel(bg(), c.other, v, c.base, c.sel, datatransfer.WithSubscriber(sl.record))
+					c.chid, err = r.mgr.OpenPullDataChannel(bg(), c.other, v, c.base, c.sel, opts...)
 				}
 				if err != nil {
 					mfail(t, log, "HARNESS/setup", "%v", err)
